@@ -700,6 +700,10 @@ func goCode(root string, unit string) string {
 		header("Model.GoSem", "Model.GoJson", "Model.Ansi")
 		text, errs := translateErrFuncs(parseFile(root, "object/object.go"), []string{"GetAny", "GetString", "GetObject", "GetList", "GetTime", "GetURL", "GetMediaType"}, "GenObject")
 		emit("object/object.go (typed accessors)", text, errs)
+	case "config":
+		header("Model.GoSem")
+		text, errs := translateConfig(parseFile(root, "config/config.go"))
+		emit("config/config.go (struct, defaults, postprocess)", text, errs)
 	default:
 		b.WriteString("-- unknown unit " + unit + "\n")
 	}
